@@ -107,3 +107,24 @@ Theorem C14_strict_only_trace_ignores_first_to_last : forall fw sm,
   request_trace fw true [] (Some sm) = request_trace fw false [] (Some sm).
 Proof. exact strict_only_trace_ignores_first_to_last. Qed.
 Print Assumptions C14_strict_only_trace_ignores_first_to_last.
+
+(** Mounting: the server is built from an options value that carries the middlewares next to other settings (an error
+    handler of the caller's, a base URL).  The chain of a mounted server is that of the middlewares whatever the other
+    settings are; storing the middlewares only on the branch that installs the default error handler is refuted (an
+    authenticating middleware no longer keeps the request from the handler once the caller brings an error handler). *)
+Theorem C14_mounting_ignores_the_other_options : forall fw ftl strict o o',
+  o_mws o = o_mws o' -> mounted_trace mount fw ftl strict o = mounted_trace mount fw ftl strict o'.
+Proof. exact mounted_trace_ignores_other_options. Qed.
+Print Assumptions C14_mounting_ignores_the_other_options.
+
+Theorem C14_mounted_chain : forall fw ftl strict o,
+  mounted_trace mount fw ftl strict o = request_trace fw ftl (o_mws o) strict.
+Proof. exact mounted_trace_is_request_trace. Qed.
+Print Assumptions C14_mounted_chain.
+
+Theorem C14_middlewares_only_with_the_default_error_handler_refuted :
+  let o := {| o_mws := [Stop]; o_error_handler := true; o_base_url := false |} in
+  mounted_trace mount Chi false None o = [EMw 0]
+  /\ mounted_trace mount_under_default_error_handler Chi false None o = [EHandler].
+Proof. exact mount_under_default_error_handler_refuted. Qed.
+Print Assumptions C14_middlewares_only_with_the_default_error_handler_refuted.
